@@ -5,7 +5,7 @@
 From Coq Require Import List QArith ZArith NArith Bool Arith.
 From QmcV Require Import Model.Prog Model.Sse Model.Nav Model.Ham Model.Diagonal Model.Cluster Model.ClusterValid
      Model.Convert Proofs.ProgLemmas Proofs.DiagonalProofs Proofs.ConvertProofs Proofs.SseWeight
-     Proofs.ClusterProofs Proofs.ClusterFlipProofs Proofs.ThermalProofs Proofs.WorldLine Proofs.Expect Proofs.SweepStationary Proofs.GroupKernel Proofs.TimestepStationary Model.Steps.
+     Proofs.ClusterProofs Proofs.ClusterFlipProofs Proofs.ThermalProofs Proofs.WorldLine Proofs.Expect Proofs.SweepStationary Proofs.GroupKernel Proofs.TimestepStationary Model.Steps Check.Common Proofs.ValidatedPipeline.
 Import ListNotations.
 Open Scope Q_scope.
 
@@ -289,3 +289,45 @@ Example C01_ex_timestep_flow_with_field :
                              * mass (cfg_eqb y) (denote (pipeline_cfg_w ex_wfn (update_cfg (met_update ex_ham_h (1 # 2))) x))) sp))
         (sse_weight ex_ham_h (1 # 2) (snd y))) sp = true.
 Proof. vm_compute. repeat split. Qed.
+
+(* ==== UNCONDITIONAL form for the Ising sampler without longitudinal field ====
+   For EVERY graph, couplings of either sign and any magnitude, Gamma, beta > 0, cutoff L: the default pipeline —
+   Metropolis diagonal update, cluster update, free-spin refresh — leaves the SSE weight stationary on the space of
+   ALL consistent legal configurations.  The cluster stage is taken with a VALIDATED decomposition
+   ([cluster_cfg_v]: run the model's cluster update if the labelling passes links_ok / sides_ok / vars_in_range,
+   otherwise leave the configuration alone); where the validators pass it IS the model's cluster update
+   (C01_validated_stage_is_model), and the validity test is the very one the correspondence check evaluates on
+   every replayed configuration (C01_validity_is_checked).  No hypothesis about the decomposition algorithm,
+   about closure of the space or about symmetry of the weights is left. *)
+Theorem C01_ising_pipeline_stationary : forall g beta L,
+  has_long g = false -> 0 < beta -> (0 < ising_nbonds g)%nat ->
+  forall f : cfg -> Q,
+    Qsum (map (fun x => sse_weight (ising_ham g) beta (snd x)
+                        * expect (pipeline_cfg_v (update_cfg (met_update (ising_ham g) beta)) x) f)
+              (canon (ising_ham g) (all_substates (i_nvars g)) L))
+    == Qsum (map (fun x => sse_weight (ising_ham g) beta (snd x) * f x)
+                 (canon (ising_ham g) (all_substates (i_nvars g)) L)).
+Proof. exact ising_pipeline_stationary. Qed.
+Print Assumptions C01_ising_pipeline_stationary.
+
+Theorem C01_validated_stage_is_model : forall c, cluster_valid c = true -> cluster_cfg_v c = cluster_cfg c.
+Proof. exact cluster_cfg_v_is_model. Qed.
+Print Assumptions C01_validated_stage_is_model.
+
+Theorem C01_validity_is_checked : forall c, cluster_valid c = valid_decomp (fst c) (snd c).
+Proof. exact cluster_valid_is_checked. Qed.
+Print Assumptions C01_validity_is_checked.
+
+(* the Ising table with h = 0 is flip-symmetric on its legal operators: two-site terms keep their weight when
+   both spins are flipped, transverse terms have a value-independent weight *)
+Theorem C01_ising_table_flip_symmetric : forall g, has_long g = false -> sym_ham (ising_ham g).
+Proof. exact ising_sym_ham. Qed.
+Print Assumptions C01_ising_table_flip_symmetric.
+
+(* the same for any flip-symmetric Hamiltonian table (used by C04 for symmetric interaction sets) *)
+Theorem C01_symmetric_pipeline_stationary : forall H nv L beta,
+  sym_ham H -> 0 < beta -> (0 < h_nbonds H)%nat ->
+  wstat (canon H (all_substates nv) L) (fun c => sse_weight H beta (snd c))
+        (pipeline_cfg_v (update_cfg (met_update H beta))).
+Proof. intros H nv L beta Hs. exact (metropolis_pipeline_v_stationary H Hs nv L beta). Qed.
+Print Assumptions C01_symmetric_pipeline_stationary.
